@@ -2400,6 +2400,7 @@ _UFUNC_IMPL = {
     _np.multiply: lambda a, b: _elementwise2(a, b, lambda x, y: x * y),
     _np.true_divide: lambda a, b: _elementwise2(a, b, lambda x, y: to_real(x) / to_real(y), "real"),
     _np.negative: lambda a: -as_symarr(a),
+    _np.reciprocal: lambda a: _elementwise1(a, lambda x: 1 / to_real(x), "real"),  # (real-valued model: integer dtypes are exercised by the concrete 'integer' runs)
     _np.absolute: sym_abs,
     _np.sign: sym_sign,
     _np.minimum: sym_minimum,
